@@ -95,6 +95,7 @@ Theorem C09_outcome : forall c s i k, reach c s -> nth_error (calls s) i = Some 
     | Timeout => k_dl k <= k_ret k
     | Error => ~ In i (sendq s) /\ ~ In i (wire s)
     | Sent => k_ow k = true /\ (In i (sendq s) \/ In i (wire s))
+    | Cancelled => True
     end.
 Proof. exact CallLifeProofs.outcome_classes. Qed.
 Print Assumptions C09_outcome.
@@ -125,6 +126,16 @@ Theorem C09_restored_per_call : forall c s1 s2 i k1 k2, reach c s1 -> reach c s2
   queueLen s1 = queueLen s2 /\ invokeNum s1 = invokeNum s2 /\ (forall j, In j (resp s1) <-> In j (resp s2)).
 Proof. exact CallLifeProofs.restored_per_call. Qed.
 Print Assumptions C09_restored_per_call.
+
+(* THE LEDGER OF A CALL, over all outcomes (reply, timeout, cancellation by the caller, error from a refused / timed-out
+   dial, from the enqueue timeout, from a full invoke queue, from a rejecting client filter, one-way): once the call has
+   returned it has no table entry, is counted in neither counter, does not hold connLock, none of its timers can act, and
+   a receiver that still holds its reply channel is released within ReadTimeout and cannot deliver.  (A panic inside a
+   client filter ends the process through TarsInvoke's CheckPanic: there is nothing to restore.) *)
+Theorem C09_ledger_all_outcomes : forall c s i k, reach c s -> nth_error (calls s) i = Some k -> k_pc k = Returned ->
+  (exists o, k_out k = Some o) /\ (forall o, k_out k = Some o -> ledger_clear c s i).
+Proof. exact CallLifeProofs.ledger_all_outcomes. Qed.
+Print Assumptions C09_ledger_all_outcomes.
 
 (* ---------- clause 4: a reply that arrives later is discarded without affecting any other call ---------- *)
 Theorem C09_late_reply_inert : forall c s r x l s', reach c s -> nth_error (rcvs s) r = Some x ->
